@@ -13,7 +13,7 @@ from ..ctx import Discrepancy
 
 META = {
     "rule": "stream 'enum': every string over the alphabet {a,b,<,>,','} "
-            "up to length L (quick 8, thorough 10), each visited exactly "
+            "up to length L (quick 8, thorough 11), each visited exactly "
             "once (distinct by construction, counted); stream 'gen': random "
             "grammar trees (depth<=60, <=120 siblings, recursion path cost "
             "<=400) printed to names, plus single-token mutations. "
